@@ -141,6 +141,10 @@ static int gen_json_printer_enum(fb_output_t *out, fb_compound_type_t *ct)
         fprintf(out->fp, "\n    switch (v) {\n");
         for (sym = ct->members; sym; sym = sym->link) {
             member = (fb_member_t *)sym;
+            /* Aliased values (duplicates are legal without ascending_enum) print as the first name, like in the reader. */
+            if (sym->flags & fb_duplicate) {
+                continue;
+            }
             switch (member->value.type) {
             case vt_uint:
                 fprintf(out->fp, "    case %s(%"PRIu64"): flatcc_json_printer_enum(ctx, \"%.*s\", %ld); break;\n",
